@@ -58,7 +58,10 @@ NotifiedOK(rec) ==
   /\ Clause("notified_context_only_reported", fC \subseteq RepC(rec))
   /\ Clause("notified_context_only_changed", fC \subseteq chC)
   /\ Clause("notified_context_all_changed",
-            \A c \in chC : c \in fC \/ c \in DescrStates(rec, "C") \/ cpre.C[c].d \in RepD(rec, "Del"))
+            \* (a context state that disappears because the updated context descriptor no longer lists it is
+            \*  announced by the update notification of that descriptor: the entity named is the descriptor)
+            \A c \in chC : c \in fC \/ c \in DescrStates(rec, "C") \/ cpre.C[c].d \in RepD(rec, "Del")
+                             \/ (~rec.cpost.C[c].present /\ cpre.C[c].d \in RepD(rec, "Upt")))
   /\ Clause("notified_new", Rng(rec.fired.Dnew) = RepD(rec, "Crt"))
   /\ Clause("notified_updated", Rng(rec.fired.Dupd) = RepD(rec, "Upt"))
   /\ Clause("notified_deleted", Rng(rec.fired.Ddel) = RepD(rec, "Del"))
